@@ -30,6 +30,10 @@ pub enum Op {
     /// only the first `folds` pairs of an unshuffled KFold are drawn from the iterator and checked one by one
     /// (for fold counts whose full output would not fit in memory)
     KFoldHead { folds: usize },
+    /// a long single-thread session around a counter boundary: the case's (n, k) split, then `filler` splits of
+    /// `filler_n` rows into `filler_k` folds, then the (n, k) split again - every split judged. Lengths are chosen so
+    /// that the number of calls or folds in between straddles 2^8 or 2^16 (counters narrower than usize wrap there).
+    KFoldWrap { filler: usize, filler_n: usize, filler_k: usize },
     Split { test_size: f32, f32m: bool },
     CrossValPredict,
     CrossValidate,
@@ -633,7 +637,7 @@ fn structured_perm(n: usize, which: u64, r: &mut Xo) -> Vec<usize> {
 }
 
 impl C16 {
-    fn run_inner<T: RealNumber>(&self, case: &Case, rep: &mut Report) {
+    fn run_inner<T: RealNumber + Send + Sync>(&self, case: &Case, rep: &mut Report) {
         let n = case.n;
         let k = case.k;
         let (x, y) = make_xy::<T>(n, case.p);
@@ -713,6 +717,49 @@ impl C16 {
                                 }
                             }
                         }
+                        // a live iterator that changes threads: created on a helper thread (with its own simulator source),
+                        // consumed here after this thread has run a different split of its own. KFoldIter is Send; whatever it
+                        // needs must travel with it.
+                        if rep.violation.is_none() && case.tape.seed % 8 == 0 {
+                            let sd = case.tape.seed;
+                            let spec = TapeSpec::prng(sd ^ 0x6d69_6772_6174_6564);
+                            let made = guarded(|| {
+                                std::thread::scope(|sc| {
+                                    sc.spawn(|| {
+                                        let g = TapeGuard::install(&spec);
+                                        let warm: Vec<(Vec<usize>, Vec<usize>)> = make_kfold(2, true, 0).split(&x).collect();
+                                        let it = cv.split(&x);
+                                        drop(g);
+                                        (warm.len(), it)
+                                    })
+                                    .join()
+                                })
+                            });
+                            rep.count("fault.split-iterator-migrated-between-threads", 1);
+                            match made {
+                                Ok(Ok((_, it))) => {
+                                    let n2 = 2 + (sd / 11 % 30) as usize;
+                                    let k2 = (2 + (sd / 13 % 5) as usize).min(n2);
+                                    let (x2, _) = make_xy::<T>(n2, 1);
+                                    let own: Result<Vec<(Vec<usize>, Vec<usize>)>, String> = guarded(|| make_kfold(k2, true, 1).split(&x2).collect());
+                                    let _ = own;
+                                    match guarded(|| it.collect::<Vec<(Vec<usize>, Vec<usize>)>>()) {
+                                        Err(msg) => rep.fail("panic", "kfold-iterator", format!("KFold(n={}, k={}, shuffle={}): an iterator created on another thread panicked when consumed: {}", n, k, case.shuffle, msg)),
+                                        Ok(f) => {
+                                            let tr: Vec<Vec<usize>> = f.iter().map(|p| p.0.clone()).collect();
+                                            let te: Vec<Vec<usize>> = f.iter().map(|p| p.1.clone()).collect();
+                                            for (t1, t2) in f.iter() {
+                                                d.usizes(t1).usizes(t2);
+                                            }
+                                            if let Err((c, m)) = check_folds(n, k, case.shuffle, &tr, &te) {
+                                                rep.fail(c, "kfold-migrated", format!("KFold(n={}, k={}, shuffle={}): iterator created on one thread and consumed on another (which had run a split of n={}, k={} of its own): {}", n, k, case.shuffle, n2, k2, m));
+                                            }
+                                        }
+                                    }
+                                }
+                                Ok(Err(_)) | Err(_) => rep.fail("panic", "kfold-split", format!("KFold(n={}, k={}).split() panicked on a helper thread", n, k)),
+                            }
+                        }
                         // two live iterators advanced in an interleaved order (nested cross-validation: an inner split runs
                         // while the outer iterator is still alive). The interleaving is a schedule drawn from the case seed;
                         // each iterator must still hand out a proper partition of its own rows.
@@ -761,6 +808,40 @@ impl C16 {
                             }
                         }
                         tests_for_state = Some(tests);
+                    }
+                }
+            }
+            Op::KFoldWrap { filler, filler_n, filler_k } => {
+                let cv = make_kfold(k, case.shuffle, case.ctor);
+                let (xf, _) = make_xy::<T>(*filler_n, 1);
+                let cvf = make_kfold(*filler_k, case.shuffle, case.ctor);
+                let res = guarded(|| -> Result<u64, (&'static str, String)> {
+                    let judge = |nn: usize, kk: usize, pairs: Vec<(Vec<usize>, Vec<usize>)>, what: &str| -> Result<(), (&'static str, String)> {
+                        let tr: Vec<Vec<usize>> = pairs.iter().map(|p| p.0.clone()).collect();
+                        let te: Vec<Vec<usize>> = pairs.iter().map(|p| p.1.clone()).collect();
+                        check_folds(nn, kk, case.shuffle, &tr, &te).map_err(|(c, m)| (c, format!("{}: {}", what, m)))
+                    };
+                    let mut folds = 0u64;
+                    let first: Vec<_> = cv.split(&x).collect();
+                    folds += first.len() as u64;
+                    judge(n, k, first, "the first split of the session")?;
+                    for j in 0..*filler {
+                        let f: Vec<_> = cvf.split(&xf).collect();
+                        folds += f.len() as u64;
+                        judge(*filler_n, *filler_k, f, &format!("split {} of {} in between (n={}, k={})", j + 1, filler, filler_n, filler_k))?;
+                    }
+                    let last: Vec<_> = cv.split(&x).collect();
+                    folds += last.len() as u64;
+                    judge(n, k, last, &format!("the same split again after {} splits ({} folds) on this thread", filler, folds))?;
+                    Ok(folds)
+                });
+                rep.count("fault.long-session-around-counter-boundary", 1);
+                match res {
+                    Err(msg) => rep.fail("panic", "kfold-split", format!("KFold session (n={}, k={}, {} x (n={}, k={}) in between) panicked: {}", n, k, filler, filler_n, filler_k, msg)),
+                    Ok(Err((c, m))) => rep.fail(c, "kfold-session", format!("KFold session (n={}, k={}, shuffle={}, {} x (n={}, k={}) in between): {}", n, k, case.shuffle, filler, filler_n, filler_k, m)),
+                    Ok(Ok(folds)) => {
+                        rep.count("steps.folds", folds);
+                        d.u64(folds);
                     }
                 }
             }
@@ -1163,6 +1244,8 @@ impl Property for C16 {
                     note: "identity / reverse / rotation / parity-sorted / adjacent-swap permutations forced through the seam" },
             Batch { name: "splitter-party", count: if q { 20_000 } else { 400_000 }, simulated: true, exhaustive: false,
                     note: "a harness-owned BaseKFold party hands out explicit folds whose training part is not the complement of the test part (expanding window / sub-sampled / embargo); the folds must be used verbatim" },
+            Batch { name: "wrap-sessions", count: if q { 48 } else { 600 }, simulated: true, exhaustive: false,
+                    note: "long single-thread sessions whose number of calls / folds between two identical splits straddles 2^8 or 2^16: state kept in counters narrower than usize wraps there" },
             Batch { name: "sessions", count: if q { 40_000 } else { 800_000 }, simulated: true, exhaustive: false,
                     note: "sessions of 2..4 calls on one thread (train_test_split / KFold / cross_val_predict / cross_validate, shuffled and not, mostly on the same number of rows): every call is judged, so state that survives from one call to the next shows" },
             Batch { name: "party-fault", count: if q { 40_000 } else { 600_000 }, simulated: true, exhaustive: false,
@@ -1171,6 +1254,17 @@ impl Property for C16 {
     }
 
     fn gen(&self, batch: &str, index: u64, seed: u64) -> Case {
+        if batch == "wrap-sessions" {
+            let mut r = Xo::fork(seed, "wrap");
+            let (n, k) = *r.pick(&[(64usize, 64usize), (64, 64), (33, 11), (20, 5), (64, 2)]);
+            let (filler_n, filler_k) = *r.pick(&[(2usize, 2usize), (2, 2), (3, 3), (5, 2)]);
+            // target: calls or folds in between = 2^8 or 2^16, give or take a few dozen
+            let target = if index % 4 == 0 { 256i64 } else { 65_536 };
+            let unit = if r.chance(0.5) { 1 } else { filler_k as i64 }; // count calls, or folds
+            let filler = (((target + r.below(160) as i64 - 80) / unit).max(1)) as usize;
+            let shuffle = r.chance(0.3);
+            return Case { op: Op::KFoldWrap { filler, filler_n, filler_k }, n, k, p: 1, shuffle, fail_at: None, tape: TapeSpec::prng(Xo::fork(seed, "schedule").u64()), kind: "wrap-session".into(), f32m: false, custom_folds: None, ctor: (index % 3) as u8, backend: 0, n_splits_report: None, nonfinite_pred: None, prelude: vec![] };
+        }
         if batch == "sessions" {
             let mut sr = Xo::fork(seed, "session");
             let pick = |sr: &mut Xo, j: u64| -> Case {
